@@ -30,6 +30,12 @@ impl RootRelativePath {
         if self.is_root() { root.to_path_buf() } else { root.join(&self.inner) }
     }
 
+    /// Is this path the same as, or somewhere inside, the given path?
+    pub fn is_same_or_inside(&self, other: &RootRelativePath) -> bool {
+        other.is_root() || self.inner == other.inner ||
+            (self.inner.starts_with(&other.inner) && self.inner[other.inner.len()..].starts_with('/'))
+    }
+
     /// Rather than exposing the inner string, expose just regex matching.
     /// This reduces the risk of incorrect usage of the raw string value (e.g. by using
     /// local-platform Path functions).
